@@ -45,6 +45,26 @@ class Watch:
             p = p.decode("utf-8", "replace")
         if CANARY in p or p in self.strings or any(s and p.endswith(os.sep + s) for s in self.strings):
             self.events.append((what, p))
+        elif what in ("open", "io.open", "os.open", "audit:open") and not _is_runtime_path(p):
+            # any other file the deserialiser opens that is not part of the Python installation / the library
+            # source (lazy imports) is a file access too
+            self.events.append((what, p))
+
+
+_RUNTIME_ROOTS = None
+
+
+def _is_runtime_path(p):
+    global _RUNTIME_ROOTS
+    if _RUNTIME_ROOTS is None:
+        roots = {sys.prefix, sys.base_prefix, sys.exec_prefix, "/usr/lib", "/usr/share", "/usr/local/lib", "/proc/", "/sys/", "/dev/", "/etc/"}
+        roots.update(x for x in sys.path if x)
+        roots.add(os.path.dirname(os.path.dirname(os.path.abspath(ir.__file__))))
+        _RUNTIME_ROOTS = tuple(sorted({os.path.realpath(r) for r in roots} | roots))
+    if not isinstance(p, str) or not p:
+        return True
+    ap = os.path.abspath(p)
+    return any(ap == r or ap.startswith(r.rstrip("/") + "/") for r in _RUNTIME_ROOTS)
 
 
 WATCH = Watch()
@@ -97,6 +117,18 @@ def _strings_of(m, acc):
                     acc.add(x.decode())
                 except UnicodeDecodeError:
                     pass
+
+
+def _external_strings(m, acc):
+    """Every string of every external_data entry of every TensorProto anywhere in the message."""
+    for fd, v in m.ListFields():
+        if fd.type != fd.TYPE_MESSAGE:
+            continue
+        for x in (v if fd.is_repeated else [v]):
+            if isinstance(x, onnx.TensorProto):
+                for e in x.external_data:
+                    acc.add(e.value)
+            _external_strings(x, acc)
 
 
 def sites(msg, path=()):
@@ -228,7 +260,7 @@ def special_mutants(seed):
     if len(m.graph.node) >= 2 and len(m.graph.node[0].input) and len(m.graph.node[1].output):
         m.graph.node[0].input[0] = m.graph.node[1].output[0]  # two-node cycle
         out.append(("two_node_cycle", m))
-    for mk in (_tensor_two_payloads, _tensor_wrong_field, _tensor_dims_mismatch, _external_absurd, _graph_attr_self_copy, _missing_types, _duplicate_names_everywhere, _subgraph_io_names_outer):
+    for mk in (_tensor_two_payloads, _tensor_wrong_field, _tensor_dims_mismatch, _external_absurd, _graph_attr_self_copy, _missing_types, _duplicate_names_everywhere, _subgraph_io_names_outer, _function_body_shadowing):
         try:
             for label, mm in mk(seed):
                 out.append((label, mm))
@@ -284,6 +316,10 @@ def _external_absurd(seed):
         [("location", f"/abs/{CANARY}/w.bin"), ("length", "-1")],
         [("location", ""), ("location", f"{CANARY}/second")],
         [("location", f"{CANARY}/w.bin"), ("unknown_key", "v"), ("offset", "")],
+        [("location", f"{CANARY}/w.bin"), ("offset", "0"), ("length", "12"), ("checksum", "da39a3ee5e6b4b0d3255bfef95601890afd80709")],
+        [("location", "c17_existing_file.bin"), ("checksum", "00")],
+        [("location", f"{CANARY}/w.bin"), ("checksum", "")],
+        [("checksum", "abc"), ("location", f"/abs/{CANARY}/w.bin")],
     ]
     for i, ent in enumerate(variants):
         m = gp._copy(seed)
@@ -300,6 +336,31 @@ def _external_absurd(seed):
         a.t.CopyFrom(_first_init(m2))
         m2.graph.node.add().CopyFrom(gp.node("Constant", [], [f"const_ext_{i}"], f"n_const_{i}", attrs=[a]))
         yield f"external_absurd_attr_{i}", m2
+        # the same tensor as initializer of every nested body and as a TENSORS element inside every function
+        m3 = gp._copy(seed)
+        placed = 0
+        for g in _all_graphs(m3.graph):
+            if g is not m3.graph:
+                g.initializer.add().CopyFrom(_first_init(m))
+                g.initializer[-1].name = f"nested_ext_{placed}"
+                placed += 1
+        for f in m3.functions:
+            a3 = onnx.AttributeProto(name="values", type=onnx.AttributeProto.TENSORS)
+            a3.tensors.add().CopyFrom(_first_init(m))
+            f.node.add().CopyFrom(gp.node("MyConsts", [], [f"fn_const_ext_{placed}"], f"fn_const_{placed}", domain="custom.c17", attrs=[a3]))
+            placed += 1
+        if placed:
+            yield f"external_absurd_nested_{i}", m3
+
+
+def _all_graphs(g):
+    yield g
+    for n in g.node:
+        for a in n.attribute:
+            if a.type == onnx.AttributeProto.GRAPH:
+                yield from _all_graphs(a.g)
+            for sg in a.graphs:
+                yield from _all_graphs(sg)
 
 
 def _graph_attr_self_copy(seed):
@@ -346,6 +407,33 @@ def _subgraph_io_names_outer(seed):
                     m.graph.node[ni].attribute[ai].g.node[-1].output[0] = nm  # shadows the outer value
                     k += 1
                     yield f"subgraph_node_output_shadows_outer_value_{k}", m
+
+
+def _function_body_shadowing(seed):
+    """Inside a function: a node output of a nested body takes the name of a value of the function body
+    (consistently: the body's value_info / output entries are renamed with it)."""
+    k = 0
+    for fi, f in enumerate(seed.functions):
+        outer = [o for n in f.node for o in n.output if o] + list(f.input)
+        for ni, n in enumerate(f.node):
+            for ai, a in enumerate(n.attribute):
+                if a.type != onnx.AttributeProto.GRAPH:
+                    continue
+                for bi, bn in enumerate(a.g.node):
+                    for oi, old in enumerate(bn.output):
+                        for nm in outer:
+                            m = gp._copy(seed)
+                            g = m.functions[fi].node[ni].attribute[ai].g
+                            g.node[bi].output[oi] = nm
+                            for other in g.node:
+                                for ii in range(len(other.input)):
+                                    if other.input[ii] == old:
+                                        other.input[ii] = nm
+                            for vi in list(g.value_info) + list(g.output):
+                                if vi.name == old:
+                                    vi.name = nm
+                            k += 1
+                            yield f"function_subgraph_value_shadows_function_value_{k}", m
 
 
 def _duplicate_names_everywhere(seed):
@@ -405,10 +493,7 @@ def check_proto(p):
     WATCH.events = []
     WATCH.strings = set()
     acc = set()
-    for g in [p.graph] if isinstance(p, onnx.ModelProto) else []:
-        for t in g.initializer:
-            for e in t.external_data:
-                acc.add(e.value)
+    _external_strings(p, acc)
     WATCH.strings = {s for s in acc if s and not s.lstrip("-").isdigit()}
     signal.signal(signal.SIGALRM, _alarm)
     signal.alarm(5)
